@@ -84,6 +84,13 @@ pub fn generate_group(run_seed: u64) -> GroupSpec {
     };
     gen.tiny_pct = *c.pick(&[0u32, 10, 30]);
     gen.max_len = *c.pick(&[40u32, 300, 1200, 3000, 6000, 12000]);
+    // one group in 48 has chromosome-sized contigs (own stream): thresholds in the code under
+    // test (block sizes, "long contig" fast paths) are far above the usual simulated sizes
+    if Rng::new(run_seed ^ 0xB16_C11).below(48) == 0 {
+        gen.ref_contigs = 1 + (run_seed % 2) as u32;
+        gen.max_len = 200_000;
+        gen.tiny_pct = 0;
+    }
     let k = match c.below(10) {
         0..=4 => c.range(3, 12),
         5..=7 => c.range(13, 21),
